@@ -129,6 +129,11 @@ def oracle_paths(case, rec):
     A = emd.sift.get_config(case['variant'])     # slash paths
     B = emd.sift.get_config(case['variant'])     # nested indexing
     nset = nfail = ndel = 0
+    # handles to the option groups, obtained by nested indexing before any edit: a later write through such a handle is a
+    # write to the configuration (as it is for a plain nested dict), whatever route the edits in between took
+    groups = [g for g in ('imf_opts', 'envelope_opts', 'extrema_opts') if isinstance(B.store.get(g), dict)]
+    hA = {g: A[g] for g in groups}
+    hB = {g: B[g] for g in groups}
     for step, op in enumerate(case['ops']):
         kind, path = op[0], op[1]
         keys = path.split('/')
@@ -182,6 +187,15 @@ def oracle_paths(case, rec):
             ndel += 1
     if len(A) != len(B.store) or list(A) != list(B.store):
         raise Violation('C18/paths/mapping-interface', 'len/iter disagree with the store')
+    for g in groups:
+        try:
+            hA[g]['probe_written_through_an_earlier_handle'] = 1
+            hB[g]['probe_written_through_an_earlier_handle'] = 1
+        except Exception:
+            continue
+    if not deep_equal(A.store, B.store):
+        raise Violation('C18/paths/write-through-an-earlier-handle-lost',
+                        'after the same edits, a write through a group handle taken at the start reaches one configuration only: %r vs %r' % (A.store, B.store))
     rec.cls('variant=' + case['variant'])
     return nset >= 1 and (ndel + nfail) >= 1
 
